@@ -12,6 +12,7 @@ Definition dispatch (tokens : list str) : str :=
     else if is_name dom "walk" then run_walk name args
     else if is_name dom "glob" then run_glob name args
     else if is_name dom "file" then run_file name args
+    else if is_name dom "route" then run_route name args
     else lit "?domain"
   | _ => lit "?empty"
   end.
